@@ -237,12 +237,29 @@ def run_check(prop: str, tier: str) -> int:
                     f"({got.get(str(r['idx']))} vs {r['digest']}) {p.stderr[-300:]}"
                 )
 
+    # ---- 4b. fault F5: the same check in processes started under other str-hash seeds
+    sweep = None
+    if not os.environ.get("VERIF_SUBCHECK"):
+        sweep = hashseed_sweep(prop, tier, verif_seed, workers, len(results))
+        for ln in sweep.pop("lines"):
+            print(ln)
+        if sweep["exit"] == 1:
+            printed.extend(sweep["violations"])
+        elif sweep["exit"] != 0:
+            harness_errors.append(f"hash-seed sweep exited {sweep['exit']}: {sweep['tail']}")
+        sweep.pop("tail", None)
+
     # ---- 5. evidence
     wall = time.time() - t0
-    write_evidence(
-        prop, tier, cls, verif_seed, results, corpus_results, wall, n_viol, known_hit,
-        cut_short, knob_only, det, harness_errors, workers,
-    )
+    if os.environ.get("VERIF_SUBCHECK"):
+        # part of another check's hash-seed sweep: no evidence of its own
+        print(f"SUBCHECK-SUMMARY runs={len(results)} steps="
+              f"{sum(r.get('steps', 0) for r in results)} violations={n_viol}")
+    else:
+        write_evidence(
+            prop, tier, cls, verif_seed, results, corpus_results, wall, n_viol, known_hit,
+            cut_short, knob_only, det, harness_errors, workers, sweep,
+        )
 
     for msg in harness_errors[:10]:
         print("HARNESS-ERROR:", msg[:1500])
@@ -255,8 +272,43 @@ def run_check(prop: str, tier: str) -> int:
     return 0
 
 
+def hashseed_sweep(prop, tier, verif_seed, workers, n_main):
+    """Fault F5 (process start under another PYTHONHASHSEED): the corpus and a slice of the same
+    run seeds are executed again by complete sub-checks in interpreters started under other
+    str-hash seeds.  A violation found there is minimised and replayed under that hash seed; its
+    replay file names it."""
+    seeds = [1 + verif_seed % 5] if tier != "thorough" else [1 + verif_seed % 5, 7, 11]
+    n = max(40, n_main // (5 if tier != "thorough" else 8))
+    out = dict(hashseeds=seeds, runs=0, steps=0, violations=[], exit=0, lines=[], tail="")
+    for hs in seeds:
+        env = dict(os.environ, PYTHONHASHSEED=str(hs), VERIF_SUBCHECK="1", VERIF_RUNS=str(n),
+                   VERIF_BUDGET_S="0", VERIF_WORKERS=str(workers))
+        try:
+            p = subprocess.run([sys.executable, os.path.join(VERIF_DIR, "check.py"), prop, "quick"],
+                               capture_output=True, text=True, env=env, timeout=3600)
+            code, text = p.returncode, p.stdout + p.stderr
+        except subprocess.TimeoutExpired:
+            code, text = 2, "timeout"
+        for ln in text.splitlines():
+            if ln.startswith("SUBCHECK-SUMMARY"):
+                kv = dict(x.split("=") for x in ln.split()[1:])
+                out["runs"] += int(kv["runs"])
+                out["steps"] += int(kv["steps"])
+            elif ln.startswith("VIOLATION "):
+                out["violations"].append(ln.split("replay=")[1])
+                out["lines"].append(ln)
+            elif ln.startswith("  oracle=") or ln.startswith("HARNESS-ERROR"):
+                out["lines"].append(f"{ln}  [PYTHONHASHSEED={hs}]")
+        if code == 1:
+            out["exit"] = 1
+        elif code != 0 and out["exit"] == 0:
+            out["exit"] = code
+            out["tail"] = text[-400:]
+    return out
+
+
 def write_evidence(prop, tier, cls, verif_seed, results, corpus_results, wall, n_viol, known_hit,
-                   cut_short, knob_only, det, harness_errors, workers):
+                   cut_short, knob_only, det, harness_errors, workers, sweep=None):
     good = [r for r in results if "digest" in r]
     steps = sum(r.get("steps", 0) for r in good)
     end_states = {r["end_state"] for r in good if r.get("nontrivial") and r.get("end_state")}
@@ -311,6 +363,7 @@ def write_evidence(prop, tier, cls, verif_seed, results, corpus_results, wall, n
             cut_short_by=dict(cut_short),
             knob_only_anomalies=knob_only,
             harness_errors=len(harness_errors),
+            hashseed_sweep=sweep or {},
             exhaustive=False,
         ),
         assumptions=m.ASSUMPTIONS,
